@@ -56,6 +56,7 @@ type scriptRun struct {
 	ExtraExt      bool
 	ExtraExts     []reftls.Ext
 	IgnoreCertReq bool
+	ShareSuffix   []byte // scripted client: bytes appended to its ECDHE key share
 	// scripted ECDHE server deviations
 	SrvECDHECurve, SrvECDHEWireCurve uint16
 	SrvECDHEPoint                    []byte
@@ -266,7 +267,7 @@ func runScriptedPeer(c *simkit.Choice, r *simkit.Rec) {
 	ecdhe := sr.TLS && reftls.Suite(sr.Suite).ECDHE
 	var curves []uint16
 	if sr.TLS {
-		curves = [][]uint16{{23}, {24}, {25}, {23, 24, 25}, {25, 24, 23}, {24, 23}}[c.Choose(6, simkit.LScen)]
+		curves = [][]uint16{{23}, {24}, {25}, {23, 24, 25}, {25, 24, 23}, {24, 23}, {29}, {29, 23}, {23, 29}}[c.Choose(9, simkit.LScen)]
 	}
 	units := honestUnits(sr.EUTServer, sr.ClientAuth, sr.TLS && !ecdhe)
 	if sr.EUTServer && c.Bool(1, 4, simkit.LScen) {
@@ -372,7 +373,17 @@ func runScriptedPeer(c *simkit.Choice, r *simkit.Rec) {
 			if sr.NPN && c.Bool(1, 3, simkit.LFault) {
 				sub2 = 7
 			}
+			if ecdhe && c.Bool(1, 4, simkit.LFault) {
+				sub2 = 8
+			}
 			switch sub2 {
+			case 8:
+				// the client's ECDHE share carries extra bytes behind the genuine point
+				// (covered by its length byte, hashed as sent, secret computed from the
+				// genuine part): a share of the wrong size, whatever the curve
+				sr.ShareSuffix = drawData(c, 1+c.Choose(3, simkit.LFault))
+				sr.Expect = expFail
+				sr.Why = "ECDHE key share with trailing bytes (consistent transcript)"
 			case 7:
 				// NPN was negotiated but the client goes straight from ChangeCipherSpec to
 				// Finished, hashing accordingly
@@ -418,7 +429,7 @@ func runScriptedPeer(c *simkit.Choice, r *simkit.Rec) {
 			case 4:
 				if ecdhe {
 					// ClientKeyExchange whose ECDHE point is malformed or not on the curve
-					size := map[uint16]int{23: 32, 24: 48, 25: 66}[curves[0]]
+					size := map[uint16]int{23: 32, 24: 48, 25: 66, 29: 16}[curves[0]]
 					kind := c.Choose(8, simkit.LFault)
 					var pt []byte
 					switch kind {
@@ -672,12 +683,12 @@ func runScriptedPeer(c *simkit.Choice, r *simkit.Rec) {
 				// ServerHello carrying extensions the client did not ask for, or with
 				// malformed bodies. Whether each must be refused is not stated by the
 				// property: no crash, no hang, no one-sided completion.
-				types := []uint16{13172, 16, 5, 35, 0xff01, 0, 10, 11, 23, 18, 0xfabc, 13, 15}
+				types := []uint16{13172, 16, 5, 35, 0xff01, 0, 10, 11, 23, 18, 0xfabc, 13, 15, 16, 16, 13172, 0}
 				n := 1 + c.Choose(3, simkit.LFault)
 				for i := 0; i < n; i++ {
 					t := types[c.Choose(len(types), simkit.LFault)]
 					var body []byte
-					switch c.Choose(5, simkit.LFault) {
+					switch c.Weighted([]int{1, 2, 1, 1, 1, 4, 2}, simkit.LFault) {
 					case 0:
 						body = nil
 					case 1:
@@ -688,6 +699,12 @@ func runScriptedPeer(c *simkit.Choice, r *simkit.Rec) {
 						body = append([]byte{0x00, 0x06}, drawData(c, 6)...)
 					case 4:
 						body = []byte{0}
+					case 5:
+						// well-framed but empty inner structures: an empty list, a list of one
+						// empty string, a list of two entries where one is announced
+						body = [][]byte{{0, 0}, {0, 1, 0}, {0, 2, 1, 'h'}, {0, 3, 1, 'h', 0}, {0, 0, 0}, {1, 0}}[c.Choose(6, simkit.LFault)]
+					case 6:
+						body = [][]byte{{0, 2, 0, 0}, {0, 4, 0, 0, 0, 0}, {0, 1}, {0}}[c.Choose(4, simkit.LFault)]
 					}
 					dup := false
 					for _, e := range sr.ExtraExts {
@@ -981,6 +998,7 @@ func runScriptedPeer(c *simkit.Choice, r *simkit.Rec) {
 					cfg.Vers, cfg.VersSet = reftls.VersionTLS12, true
 				}
 				cfg.Curves = curves
+				cfg.ShareSuffix = sr.ShareSuffix
 				if sr.ClientAuth {
 					cfg.Cert = &reftls.Identity{Chain: [][]byte{pki.DER("tlsclirsa")}, RSA: refRSA("tlsclirsa")}
 				}
